@@ -1029,6 +1029,11 @@ func (gqm *GroupQuotaManager) ReservePod(quotaName string, p *v1.Pod) {
 	if quotaInfo == nil || !quotaInfo.IsPodExist(p) || quotaInfo.CheckPodIsAssigned(p) {
 		return
 	}
+	// p is the scheduler's copy of the pod, taken when the scheduling cycle started. The requests and used of the
+	// quota follow the pod events, so book the latest delivered version, not a copy an update may have overtaken.
+	if cachedPod := quotaInfo.getCachedPod(p); cachedPod != nil {
+		p = cachedPod
+	}
 
 	gqm.updatePodIsAssignedNoLock(quotaName, p, true)
 	gqm.updatePodUsedNoLock(quotaName, nil, p)
@@ -1046,6 +1051,14 @@ func (gqm *GroupQuotaManager) UnreservePod(quotaName string, p *v1.Pod) {
 	quotaInfo := gqm.getQuotaInfoByNameNoLock(quotaName)
 	if quotaInfo == nil || !quotaInfo.IsPodExist(p) || !quotaInfo.CheckPodIsAssigned(p) {
 		return
+	}
+	if cachedPod := quotaInfo.getCachedPod(p); cachedPod != nil {
+		if cachedPod.Spec.NodeName != "" && !util.IsPodTerminated(cachedPod) {
+			// the binding is already visible in the delivered pod (bind echo before Unreserve, e.g. a bind call that
+			// timed out but took effect): the pod is assigned by its node name and keeps counting.
+			return
+		}
+		p = cachedPod
 	}
 
 	gqm.updatePodUsedNoLock(quotaName, p, nil)
